@@ -131,7 +131,7 @@ pub fn fri_validate_unsent_commitment(
 }
 //@end
 
-//@repo crates/fri/src/fri.rs fn fri_commit props=C01,C02,C08
+//@repo crates/fri/src/fri.rs fn fri_commit props=C01,C02,C07,C08
 pub fn fri_commit(
     transcript: &mut Transcript,
     unsent_commitment: types::UnsentCommitment,
@@ -146,7 +146,7 @@ pub fn fri_commit(
             && r.inner_layers@[i].vector_commitment.config == config.inner_layers@[i].vector
             && r.inner_layers@[i].vector_commitment.commitment_hash == unsent_commitment.inner_layers@[i], // [C01,C02,C08:fri-inner-layer-i-commits-root-i]
         forall|i: int| 0 <= i < config.n_layers@ - 1 ==> (#[trigger] r.eval_points@[i])@ == round_eval_point(old(transcript).digest@, fv(unsent_commitment.inner_layers@), i as nat), // [C01,C02,C08:fri-eval-points-follow-their-roots]
-        r.last_layer_coefficients == unsent_commitment.last_layer_coefficients,             // [C01,C02,C08,C18:fri-commitment-keeps-last-layer-coefficients]
+        r.last_layer_coefficients == unsent_commitment.last_layer_coefficients,             // [C01,C02,C07,C08,C18:fri-commitment-keeps-last-layer-coefficients]
         final(transcript).digest@ == ts_absorb_vec(rounds_digest(old(transcript).digest@, fv(unsent_commitment.inner_layers@), (config.n_layers@ - 1) as nat), felts_view(unsent_commitment.last_layer_coefficients@)), // [C01,C02,C08:fri-last-layer-coefficients-absorbed-after-all-rounds]
         final(transcript).counter@ == 0,
 {
